@@ -380,7 +380,9 @@ class Env:
         for _ in range(self.i(0, 2)):
             name = "C%d" % (len(self.classes) + 1)
             k = self.pick([0, 1, 2, 3])
-            ctor = [["assign", ["attr", ["id", "this"], "a"], "=", ["id", "x"]], ["assign", ["attr", ["id", "this"], "b"], "=", ["i", k]]]
+            # the attribute gets a copy of the parameter: changing it in place must not show through the parameter (read again for b)
+            ctor = [["assign", ["attr", ["id", "this"], "a"], "=", ["id", "x"]], ["assign", ["attr", ["id", "this"], "a"], "+=", ["i", k]],
+                    ["assign", ["attr", ["id", "this"], "b"], "=", ["bin", "-", ["id", "x"], ["i", k]]]]
             methods = [
                 ["get", [], [["expr", ["attr", ["id", "this"], "a"]]]],
                 ["set", ["v"], [["assign", ["attr", ["id", "this"], "a"], "=", ["id", "v"]]]],
